@@ -392,8 +392,8 @@ def r_internalload(root):
     k, v, ev, model, params, rp = run(None, callback=False, repo=True)
     tab = rp[".all_models"][".filename_to_model"] if rp is not None else {}
     mrp = model.get("._tx_model_repository")
-    ok = k == "ret" and v is model and tab.get("/abs/models/a.mdl") is model and isinstance(mrp, pyeval.Inst) and mrp.get(".all_models") is rp.get(".all_models") and model.get("._tx_model_params") is params
-    rep("global repository, no caller's callback: the parsed model is registered", ok, "with a global repository and no callback the load %s; the repository's table holds %s, the model's own repository %s the table, its parameters are %s; documented: the model is registered under its file name in the table of all models, gets a repository that shares that table, and the caller's parameters" % ("returns the model" if k == "ret" and v is model else ("raises %s" % v if k == "raise" else "returns something else"), sorted(tab), "shares" if isinstance(mrp, pyeval.Inst) and mrp.get(".all_models") is rp.get(".all_models") else "does not share", "the caller's" if model.get("._tx_model_params") is params else "not the caller's"), props_=("C17", "C27"))
+    ok = k == "ret" and v is model and tab.get("/abs/models/a.mdl") is model and isinstance(mrp, pyeval.Inst) and mrp is not rp and mrp.get(".all_models") is rp.get(".all_models") and mrp.get(".local_models") is not rp.get(".local_models") and model.get("._tx_model_params") is params
+    rep("global repository, no caller's callback: the parsed model is registered", ok, "with a global repository and no callback the load %s; the repository's table holds %s, the model's own repository %s the table%s, its parameters are %s; documented: the model is registered under its file name in the table of all models, gets a repository OF ITS OWN (its own set of visible models) that shares that table, and the caller's parameters" % ("returns the model" if k == "ret" and v is model else ("raises %s" % v if k == "raise" else "returns something else"), sorted(tab), "shares" if isinstance(mrp, pyeval.Inst) and mrp.get(".all_models") is rp.get(".all_models") else "does not share", " (it IS the meta-model's repository: every main model sees what any other imported)" if mrp is rp else "", "the caller's" if model.get("._tx_model_params") is params else "not the caller's"), props_=("C17", "C27", "C10"))
     cases_c = [("a cached file", HS({".kind": "model", ".tag": "cached"}), dict(callback=False)), ("a cached file whose model object is falsy (user class defining __len__)", _Falsy({".kind": "model", ".tag": "cached falsy"}), dict(callback=False))]
     # the cache is consulted for every load: direct or nested, with or without a caller's callback, with or without a text given by the caller
     for main_ in (True, False):
